@@ -35,7 +35,7 @@ type MutB struct {
 }
 
 type Unexp struct {
-	A  int    `plenc:"1"`
+	A  int `plenc:"1"`
 	b  int
 	_x int    `plenc:"9"`
 	C  string `plenc:"-"`
@@ -45,12 +45,12 @@ type Unexp struct {
 }
 
 type WithNull struct {
-	I  null.Int    `plenc:"1"`
-	B  null.Bool   `plenc:"2"`
-	F  null.Float  `plenc:"3"`
-	S  null.String `plenc:"4"`
-	T  null.Time   `plenc:"5"`
-	SI null.String `plenc:"6,intern"`
+	I  null.Int            `plenc:"1"`
+	B  null.Bool           `plenc:"2"`
+	F  null.Float          `plenc:"3"`
+	S  null.String         `plenc:"4"`
+	T  null.Time           `plenc:"5"`
+	SI null.String         `plenc:"6,intern"`
 	M  map[string]null.Int `plenc:"7"`
 	P  *null.String        `plenc:"8"`
 }
@@ -76,18 +76,18 @@ type Times struct {
 }
 
 type Ptrs struct {
-	I  *int            `plenc:"1"`
-	S  *string         `plenc:"2"`
-	B  *[]byte         `plenc:"3"`
-	F  *float64        `plenc:"4"`
-	T  *Inner          `plenc:"5"`
-	L  []*Inner        `plenc:"6"`
-	LI []*int          `plenc:"7"`
-	M  map[int]*string `plenc:"8"`
+	I  *int              `plenc:"1"`
+	S  *string           `plenc:"2"`
+	B  *[]byte           `plenc:"3"`
+	F  *float64          `plenc:"4"`
+	T  *Inner            `plenc:"5"`
+	L  []*Inner          `plenc:"6"`
+	LI []*int            `plenc:"7"`
+	M  map[int]*string   `plenc:"8"`
 	MS map[string]*Inner `plenc:"9"`
-	PP **int           `plenc:"10"`
-	PL *[]string       `plenc:"11"`
-	FI *int32          `plenc:"12,flat"`
+	PP **int             `plenc:"10"`
+	PL *[]string         `plenc:"11"`
+	FI *int32            `plenc:"12,flat"`
 }
 
 type Inner struct {
